@@ -2,9 +2,10 @@
     Statements only; proofs in Proofs/ExpiryFacts.v.  Model: Model/Strings.v (deadlines,
     lazy expiry where engine.rs has it, the deadline index) and Model/Server.v
     (sweep_collect / sweep_delete = engine.rs expiration_cleanup_loop after the repair
-    9fbc313).  The sweeper's two phases are separate events, so every interleaving of
-    client commands with them is covered by quantifying over the database the delete
-    phase finds. *)
+    9fbc313; expire_before / lazy_expire = the lazy expiry every command starts with,
+    bdd75e8; RENAME moving the index entry, 10c8230).  The sweeper's two phases are separate
+    events, so every interleaving of client commands with them is covered by quantifying
+    over the database the delete phase finds. *)
 From Ferrous Require Import Base.Bytes Generated Model.Resp Model.Types Model.Strings Model.Server
   Proofs.StringsFacts Proofs.ServerFacts Proofs.ExpiryFacts.
 Open Scope Z_scope.
@@ -34,7 +35,51 @@ Theorem c02_sweep_complete :
   get_entry (fst (sweep_delete now d t (sweep_collect now d))) k = None.
 Proof. exact sweep_complete. Qed.
 
-(** LAZY EXPIRY where the code has it: from the deadline on, GET answers nil and EXISTS 0
+(** NEVER OBSERVABLE LATE.  Every command - of every data type, sent directly, queued in
+    MULTI/EXEC or called from a script - is preceded by [expire_before] on the selected
+    database (table regenerated from server.rs / engine.rs: [c02_lazy_tables]).  Whatever
+    the command and whatever its arguments, when its handler runs every key an argument
+    names is either absent or not yet at its deadline - whether or not the sweeper has run. *)
+Theorem c02_absent_from_deadline :
+  forall now d name parts k, In k (lazy_args parts) -> fresh now (fst (expire_before now d name parts)) k.
+Proof. exact expire_before_fresh. Qed.
+(** the commands that look at the key space as a whole (DBSIZE, KEYS, SCAN, RANDOMKEY, INFO)
+    see no entry past its deadline at all, provided the deadline index covers the stored
+    deadlines ([indexed]) *)
+Theorem c02_keyspace_commands_see_no_expired :
+  forall now d name parts k, indexed d -> bmem name lazy_keyspace_commands = true ->
+  fresh now (fst (expire_before now d name parts)) k.
+Proof. exact expire_before_keyspace_fresh. Qed.
+(** NEVER EARLY, NEVER SPURIOUS, for the lazy path: a key that has not reached its deadline
+    (or has none) is left exactly as it is; nothing is created or altered; a key disappears
+    only if its stored deadline has passed *)
+Theorem c02_lazy_never_early :
+  forall now d name parts k e, get_entry d k = Some e -> expired now e = false ->
+  get_entry (fst (expire_before now d name parts)) k = Some e.
+Proof. exact expire_before_keeps_live. Qed.
+Theorem c02_lazy_only_expired :
+  forall now d name parts k,
+  get_entry (fst (expire_before now d name parts)) k = get_entry d k \/
+  (get_entry (fst (expire_before now d name parts)) k = None /\
+   exists e, get_entry d k = Some e /\ expired now e = true).
+Proof. exact expire_before_only_expired. Qed.
+(** at the server: the handler of every command runs on the purged database *)
+Theorem c02_every_command_starts_with_lazy_expiry :
+  forall now s c dbi nm rest oracle,
+  normal_command now s c dbi (FBulk nm :: rest) oracle =
+  dispatch_command now (lazy_expire now s dbi (upper nm) (FBulk nm :: rest)) c dbi (FBulk nm :: rest) oracle.
+Proof. exact normal_command_is_dispatch_on_purged. Qed.
+Theorem c02_lazy_expire_db :
+  forall now s dbi name parts, 0 <= dbi < 16 -> length (s_dbs s) = 16%nat ->
+  get_db (lazy_expire now s dbi name parts) dbi = fst (expire_before now (get_db s dbi) name parts).
+Proof. exact lazy_expire_db. Qed.
+Theorem c02_lazy_tables :
+  lazy_expires_every_arg = true /\ lazy_expiry_before_dispatch = true /\
+  lazy_keyspace_commands = [bs "DBSIZE"; bs "KEYS"; bs "SCAN"; bs "RANDOMKEY"; bs "INFO"] /\
+  lazy_alldb_commands = [bs "SAVE"; bs "BGSAVE"; bs "BGREWRITEAOF"; bs "SYNC"; bs "PSYNC"].
+Proof. exact lazy_tables. Qed.
+
+(** LAZY EXPIRY inside the engine, where it was before: from the deadline on, GET answers nil and EXISTS 0
     whether or not the sweeper has run. *)
 Theorem c02_get_hides_expired :
   forall now d k e, k <> [] -> get_entry d k = Some e -> expired now e = true ->
@@ -104,21 +149,22 @@ Example c02_overwritten_key_survives :
   sweep_collect 300 d1 = [bs "t"] /\ fst (h_get 300 d2 [FBulk (bs "GET"); FBulk (bs "t")]) = r_bulk (bs "w").
 Proof. vm_compute. split; reflexivity. Qed.
 
-(** ---- known findings (the faithful model reproduces them) ---- *)
-(** no-lazy-expiry: most engine entry points never look at the deadline; e.g. INCR on an
-    expired, unswept counter continues from the old value, TYPE/STRLEN/DBSIZE/KEYS still
-    see the key, DEL counts it, EXPIRE revives it *)
-Example c02_no_lazy_incr_refuted :
-  let d0 := snd (h_set 0 empty_db [FBulk (bs "SET"); FBulk (bs "c"); FBulk (bs "41"); FBulk (bs "PX"); FBulk (bs "200")]) in
-  fst (h_incr true 1 d0 [FBulk (bs "INCR"); FBulk (bs "c")]) = r_int 42 /\
-  fst (h_dbsize d0 [FBulk (bs "DBSIZE")]) = r_int 1 /\
-  fst (h_type d0 [FBulk (bs "TYPE"); FBulk (bs "c")]) = FSimple (bs "string").
+(** ---- the former known findings, now regression examples (bdd75e8, 10c8230) ---- *)
+(** INCR on an expired, unswept counter starts from 0; TYPE says none; DBSIZE counts nothing *)
+Example c02_lazy_expiry_examples :
+  let s0 := init_server None in
+  let run := fun s t l => normal_command t s 0 0 (map FBulk l) None in
+  let s1 := snd (run s0 0 [bs "SET"; bs "c"; bs "41"; bs "PX"; bs "200"]) in
+  fst (run s1 300 [bs "INCR"; bs "c"]) = r_int 1 /\
+  fst (run s1 300 [bs "TYPE"; bs "c"]) = FSimple (bs "none") /\
+  fst (run s1 300 [bs "DBSIZE"]) = r_int 0 /\
+  fst (run s1 300 [bs "PTTL"; bs "c"]) = r_int (-2) /\
+  fst (run s1 199 [bs "INCR"; bs "c"]) = r_int 42.
 Proof. vm_compute. repeat split; reflexivity. Qed.
-(** rename-unindexed: RENAME does not move the index entry, so the destination is never
-    actively expired (only lazily, by the commands that check) *)
-Example c02_rename_unindexed_refuted :
+(** RENAME moves the index entry: the sweeper removes the destination when its time comes *)
+Example c02_rename_indexed :
   let d0 := snd (h_set 0 empty_db [FBulk (bs "SET"); FBulk (bs "a"); FBulk (bs "v"); FBulk (bs "PX"); FBulk (bs "200")]) in
   let d1 := snd (h_rename d0 [FBulk (bs "RENAME"); FBulk (bs "a"); FBulk (bs "b")]) in
   let d2 := fst (sweep_delete 300 d1 empty_tracker (sweep_collect 300 d1)) in
-  get_entry d2 (bs "b") <> None /\ fst (h_dbsize d2 [FBulk (bs "DBSIZE")]) = r_int 1.
-Proof. vm_compute. split; [discriminate|reflexivity]. Qed.
+  sweep_collect 300 d1 = [bs "b"] /\ get_entry d2 (bs "b") = None /\ fst (h_dbsize d2 [FBulk (bs "DBSIZE")]) = r_int 0.
+Proof. vm_compute. repeat split; reflexivity. Qed.
